@@ -43,7 +43,10 @@ def sparse_program_space(w, FAR, tier):
     """positions (word addresses) and per-position alphabets of the two-segment family."""
     Fb = FAR * w
     dw = 2 * w
-    quick = tier != 'thorough'
+    # the thorough alphabets (17 x as many programs) for three far placements - a page edge, the 16-page alias, the top of the address space;
+    # every other placement of the thorough list with the quick alphabets (all of them with the thorough alphabets is > 2 hours on 16 cores)
+    ww_ = w.bit_length() - 1
+    quick = tier != 'thorough' or FAR not in ((1 << 14), 16 << 14, (1 << (w - ww_)) - 6)
     pos = [0, 1, 2, 3, FAR, FAR + 1, FAR + 2, FAR + 3]
     f0 = [0, Fb + dw, dw + 1] if quick else [0, Fb + dw, dw + 1, Fb - 1, Fb + w]
     # (Fb + 3w + 1: an unaligned op that starts inside the far segment's last word - at the top of memory its fetch leaves the address space)
